@@ -287,6 +287,102 @@ def h_history(ctx, cfg):
         raise RuntimeError('control class instance not reclaimed: the liveness observation is unreliable')
 
 
+_SRC_OWNER = """
+from sigtools import modifiers, specifiers, wrappers
+
+@wrappers.decorator
+def _deco(func, *args, flag=0, **kwargs):
+    return func(*args, **kwargs)
+
+@wrappers.wrapper_decorator
+def _wdeco(func, *args, flag=0, **kwargs):
+    return func(*args, **kwargs)
+
+def _identity(f):
+    return f
+
+def target(x, y=2):
+    return ('target', x, y)
+
+class C(object):
+    @DECO
+    BIND
+    def m(FIRSTa, *args, **kwargs):
+        return ('m', a) + target(*args, **kwargs)
+
+class Sub(C):
+    pass
+"""
+OWNER_DECOS = dict(_DECOS, forger="specifiers.forwards_to_function(target)",
+                   **{'forger-emulated': "specifiers.forwards_to_function(target, emulate=True)"})
+BINDINGS = (('classmethod', '@classmethod', 'cls, '), ('staticmethod', '@staticmethod', ''))
+VIAS = ('instance', 'class', 'subclass', 'subclass-instance')
+
+
+def _make_owner_class(kind, binding):
+    import linecache
+    b = dict((x[0], x) for x in BINDINGS)[binding]
+    src = _SRC_OWNER.replace('DECO', OWNER_DECOS[kind]).replace('BIND', b[1]).replace('FIRST', b[2])
+    fname = '<symx-c18-owner-%s-%s>' % (kind, binding)
+    linecache.cache[fname] = (len(src), None, src.splitlines(True), fname)
+    ns = {'__name__': 'c18_owner'}
+    exec(compile(src, fname, 'exec'), ns)
+    return ns
+
+
+def _lookup(ns, via):
+    if via == 'instance':
+        return ns['C']().m
+    if via == 'class':
+        return ns['C'].m
+    if via == 'subclass':
+        return ns['Sub'].m
+    return ns['Sub']().m
+
+
+def h_owners(ctx, cfg):
+    """Decorators stacked over classmethod / staticmethod: what is found through an instance, the class, a subclass
+    or a subclass instance is the same method (binding does not depend on the route), so signatures and results of
+    all routes agree, in any order of look-ups."""
+    kind = KINDS[sym.pick(len(KINDS), 'kind')]
+    binding = BINDINGS[sym.pick(len(BINDINGS), 'binding')][0]
+    steps = []
+    for _ in range(cfg['L']):
+        if steps and not sym.flip('more'):
+            break
+        steps.append((VIAS[sym.pick(len(VIAS), 'via')], ('sig', 'call')[sym.pick(2, 'op')]))
+    args, kwargs = _call_args(kind)
+    with sym.notrace():
+        ctx.case('%s over %s: %s' % (kind, binding, ' '.join('%s:%s' % s for s in steps)), nontrivial=False)
+        try:
+            ref_ns = _make_owner_class(kind, binding)
+            ns = _make_owner_class(kind, binding)
+        except Exception as e:
+            ctx.count('decoration-raised:%s' % type(e).__name__)
+            return
+        try:
+            ref = _lookup(ref_ns, 'instance')
+            want_sig = str(sigtools.signature(ref))
+            want_ret = ref(*args, **kwargs)
+        except Exception as e:
+            ctx.count('instance-route-raised:%s' % type(e).__name__)
+            return
+    ctx.nontrivial = True
+    ctx.require('result-is-the-undecorated-call', want_ret == ('m', 5, 'target', 7, 2), lambda: dict(got=repr(want_ret)))
+    for pos, (via, op) in enumerate(steps):
+        info = lambda: dict(step=pos, via=via, op=op, kind=kind, binding=binding)
+        try:
+            obj = _lookup(ns, via)
+            got = str(sigtools.signature(obj)) if op == 'sig' else obj(*args, **kwargs)
+        except Exception as e:
+            ctx.require('every-route-works', False, lambda: dict(info(), exc=repr(e)))
+            continue
+        if op == 'sig':
+            ctx.require('same-signature-through-every-route', got == want_sig, lambda: dict(info(), got=got, want=want_sig))
+        else:
+            ctx.require('same-result-through-every-route', got == want_ret, lambda: dict(info(), got=repr(got)))
+
+
 def plan(tier):
     if tier == 'quick':
         return [
@@ -298,6 +394,9 @@ def plan(tier):
                  bounds='6 descriptor kinds (control, _PokTranslator, _ForgerWrapper plain/emulated, _SimpleWrapped, _Wrapped) x histories of <=3 operations over 2 instances',
                  min_nontrivial=300, must_reach=['retrieval-history-free', 'call-bound-to-right-instance',
                                                  'instance-reclaimed-after-drop', 'repeated-binding-equal']),
+            dict(name='owners-L2', fn='h_owners', depth=7, budget_s=120, cfg=dict(L=2),
+                 bounds='6 descriptor kinds stacked over classmethod / staticmethod x sequences of <=2 look-ups (signature or call) through instance / class / subclass / subclass instance',
+                 min_nontrivial=300, must_reach=['same-signature-through-every-route', 'same-result-through-every-route']),
         ]
     return [
         dict(name='order-K3', fn='h_order', depth=10, budget_s=3000, cfg=dict(K=3),
@@ -305,4 +404,6 @@ def plan(tier):
              min_nontrivial=300),
         dict(name='history-L5', fn='h_history', depth=10, budget_s=3000, cfg=dict(L=5),
              bounds='6 descriptor kinds x histories of <=5 operations over 2 instances', min_nontrivial=300),
+        dict(name='owners-L4', fn='h_owners', depth=9, budget_s=600, cfg=dict(L=4),
+             bounds='6 descriptor kinds over classmethod / staticmethod x sequences of <=4 look-ups through 4 routes', min_nontrivial=300),
     ]
